@@ -186,17 +186,45 @@ def run(ctx, rep):
     # ------------------------------------------------------------------ R02.4
     K.share(ctx, rep, "c01", lambda o: o.rule == "R01.3", "R02.4", floor=3)
     fm = ctx.func(NETREF + "._make_method")
-    # the slicing/array/call special cases are selected by the method's own name
-    tests = [A.src(n.test) for n in A.walk(fm.node) if isinstance(n, ast.If)]
-    okt = any("'__call__'" in t for t in tests) and any("slicers" in t for t in tests)
-    rep.ob("R02.4", "_make_method selects the special forwarders by the method's own name", okt, "tests: %s" % tests[:4],
-           fm.loc, kind="site")
-    for q in (NETREF + "._make_method.method#2", NETREF + "._make_method.method"):
-        f = ctx.func(q)
-        nameset = [n for n in A.walk(fm.node) if isinstance(n, ast.Assign) and A.src(n.targets[0]) == "method.__name__"]
-    oknm = len(nameset) >= 2 and all(A.src(n.value) == "name" for n in nameset)
-    rep.ob("R02.4", "generated methods carry the remote method's name", oknm, "method.__name__ = name" if oknm else
-           "generated forwarders are mis-named", fm.loc, kind="site")
+    # concrete evaluation of _make_method on each kind of name: which forwarder comes back, under which name, sending what
+    from .. import miniinterp as MI
+    DOC = "<doc>"
+    expect = {"__call__": ("HANDLE_CALL", []), "__array__": ("HANDLE_PICKLE", []),
+              "__getslice__": ("HANDLE_OLDSLICING", ["__getitem__", "__getslice__"]),
+              "__setslice__": ("HANDLE_OLDSLICING", ["__setitem__", "__setslice__"]),
+              "__delslice__": ("HANDLE_OLDSLICING", ["__delitem__", "__delslice__"]),
+              "__add__": ("HANDLE_CALLATTR", ["__add__"]), "fetch": ("HANDLE_CALLATTR", ["fetch"])}
+    bad_sel, bad_name = [], []
+    for nm, (hname, closed) in sorted(expect.items()):
+        try:
+            fo = MI.call_function(fm.node, [nm, DOC])
+        except MI.Raised as ex:
+            fo = None
+        if not isinstance(fo, MI.FuncObj):
+            bad_sel.append("%s -> %r" % (nm, fo))
+            continue
+        sends = [c for c in ast.walk(fo.node) if isinstance(c, ast.Call) and A.call_name(c) == "syncreq"]
+        got_h = A.src(sends[0].args[1]).split(".")[-1] if len(sends) == 1 and len(sends[0].args) >= 2 else None
+        got_closed = []
+        if len(sends) == 1:
+            for x in sends[0].args[2:]:
+                try:
+                    got_closed.append(MI.closure_value(fo, x))
+                except AnalysisError:
+                    pass
+        got_closed = [v for v in got_closed if isinstance(v, str)]
+        if got_h != hname or got_closed != closed:
+            bad_sel.append("%s -> %s%s" % (nm, got_h, got_closed))
+        eff_name = fo.attrs.get("__name__", fo.node.name)
+        if eff_name != nm or fo.attrs.get("__doc__") != DOC:
+            bad_name.append("%s -> __name__=%r __doc__=%r" % (nm, eff_name, fo.attrs.get("__doc__")))
+    okt = not bad_sel
+    rep.ob("R02.4", "_make_method selects the special forwarders by the method's own name", okt,
+           "%d names evaluated: call, array, old-style slicing (item name + own name), everything else by name" % len(expect) if okt
+           else "wrong forwarder for %s" % "; ".join(bad_sel), fm.loc, kind="table")
+    oknm = not bad_name
+    rep.ob("R02.4", "generated methods carry the remote method's name", oknm, "__name__ == name and __doc__ == doc for all %d" % len(expect)
+           if oknm else "generated forwarders are mis-named: %s" % "; ".join(bad_name), fm.loc, kind="table")
     fgm = ctx.func("rpyc.lib.get_methods")
     gp = A.params(fgm.node)
     src = A.src(fgm.node)
